@@ -31,7 +31,8 @@ CORRESPONDENCE_ONLY = ["mean; argmax / argmin on float cells", "axis=None and ke
 ASSUMPTIONS = ["reduceat on a non-empty segment = reduce of that segment for int/bool dtypes and for maximum/minimum"]
 
 METHODS = ["sum", "prod", "any", "all", "max", "min", "mean", "argmax", "argmin"]
-UFUNCS = ["add", "multiply", "logical_and", "logical_or", "logical_xor", "bitwise_and", "bitwise_or", "bitwise_xor", "maximum", "minimum"]
+UFUNCS = ["add", "multiply", "logical_and", "logical_or", "logical_xor", "bitwise_and", "bitwise_or", "bitwise_xor", "maximum", "minimum",
+          "logaddexp", "logaddexp2", "hypot", "gcd"]      # the last four: an identity that is not 0 / 1 / True (-inf, -inf, 0.0, 0), float results for integer data
 NPFUNCS = ["sum", "prod", "any", "all", "max", "min", "mean", "argmax", "argmin"]
 NO_IDENTITY = {"max", "min", "maximum", "minimum", "argmax", "argmin", "mean"}
 UF_OF = {"sum": "add", "prod": "multiply", "any": "logical_or", "all": "logical_and", "max": "maximum", "min": "minimum"}
@@ -49,6 +50,8 @@ def cases(rng, tier):
             dt = rng.choice(gens.DTYPES)
             if name.startswith("bitwise") and np.dtype(dt).kind == "f":
                 dt = "int16"
+            if name == "gcd" and np.dtype(dt).kind not in "iu":
+                dt = rng.choice(["int64", "int8", "uint16"])
             axis = rng.choice([-1, -1, 1, None]) if how != "ufunc" else rng.choice([-1, 1])
             if name in ("argmax", "argmin") and axis is None:
                 axis = -1
